@@ -48,6 +48,7 @@ class Run:
         self.inputs = {}     # name -> (layout, [Poly], ptr)
         self.exec_s = 0.0
         self.concrete = None  # dict var -> int : concrete mode (all inputs constants)
+        self.shadow = None    # dict var -> int : symbolic mode with a concrete shadow execution (self-test)
     def arg(self, name, layout, bounds, prefix=None):
         """allocate an argument object with symbolic limbs; bounds: list of inclusive max per limb (or int)"""
         p = self.it.new_region(name, layout.size())
@@ -56,6 +57,9 @@ class Run:
         for i in range(layout.n):
             vn = "%s%d" % (prefix or name, i)
             if self.concrete is not None: v = Poly.const(self.concrete[vn])
+            elif self.shadow is not None:
+                if self.ctx.shadow is None: self.ctx.shadow = {}
+                v = self.ctx.input(vn, 0, bounds[i], shadow=self.shadow[vn])
             else: v = self.ctx.input(vn, 0, bounds[i])
             self.it.store(Ptr(p.r, layout.cell * i), v, layout.cell); limbs.append(v)
         self.inputs[name] = (layout, limbs, p)
@@ -138,15 +142,16 @@ def concretize(run, model, seed_env=None):
     return env
 
 def encoder_selftest(run, pr, roots, rebuild, model, timeout_s):
-    """rebuild(env) -> (run2, goals2, outs2) in concrete mode.  Vectors: the vacuity model, and its neighbours
-    pushed to the bounds where the assumptions still hold."""
+    """Translator validation (DESIGN 5.2) without the solver: re-run the harness symbolically with a concrete
+    *shadow* value for every variable (inputs sampled, digits computed from their definitions) and check that
+    the emitted constraint system admits that execution - every variable within its declared bounds, every
+    side condition and assumption true - and that the symbolic outputs evaluate to the outputs of llsym's
+    concrete mode.  rebuild(concrete=env | shadow=env) -> (run2, goals2, outs2)."""
     import random
     ctx = run.ctx
-    vectors = []
-    base = concretize(run, model)
-    vectors.append(("model", base))
     rnd = random.Random(int(os.environ.get("VERIF_SEED", "0") or 0) + 12345)
-    for tag in ("max", "rand"):
+    vectors = [("model", concretize(run, model))]
+    for tag in ("rand", "max", "rand2"):
         env = {}
         for name, (layout, limbs, p) in run.inputs.items():
             for x in limbs:
@@ -160,20 +165,30 @@ def encoder_selftest(run, pr, roots, rebuild, model, timeout_s):
                 if not _eval_cond_env(a, env): ok = False
             except KeyError: ok = False
         if ok: vectors.append((tag, env))
-    res = dict(ok=True, vectors=[])
+    res = dict(ok=True, vectors=[], method="shadow execution: constraint system evaluated under concrete digit values")
     for tag, env in vectors:
-        r2, g2, o2 = rebuild(env)
-        outs = [x.cval() for x in o2]
-        pins = []
-        for v, val in env.items(): pins.append(eq(Poly.var(v), val))
-        diff = None
-        for sym, cv in zip(roots, outs):
-            c = ne(sym, cv); diff = c if diff is None else c_or(diff, c)
-        v1 = pr.check(Cond("const", True), extra=pins, timeout_s=timeout_s, split=False, pin_env=env)[0]
-        v2 = pr.check(diff, extra=pins, timeout_s=timeout_s, split=False, pin_env=env)[0] if diff is not None else "unsat"
-        res["vectors"].append(dict(vector=tag, admits_execution=v1, forces_outputs=v2))
-        if v1 != "sat" or v2 != "unsat":
-            res["ok"] = False; res["why"] = "vector %s: admits=%s forces_outputs=%s" % (tag, v1, v2)
+        rc, gc, oc = rebuild(concrete=env)
+        outs_c = [x.cval() for x in oc]
+        rs, gs, osym = rebuild(shadow=env)
+        sh = rs.ctx.shadow; c2 = rs.ctx
+        bad = None
+        for v, (lo, hi) in c2.bounds.items():
+            if v not in sh: bad = "variable %s has no shadow value" % v; break
+            if not (lo <= sh[v] <= hi): bad = "variable %s = %d outside its declared bounds [%d, %d]" % (v, sh[v], lo, hi); break
+        if bad is None:
+            for sd in c2.side:
+                if sd[0] == "booldef":
+                    if (sh[sd[1]] == 1) != rs.it.shadow_cond(sd[2]): bad = "boolean definition of %s violated" % sd[1]; break
+                elif sd[0] == "cond":
+                    if not rs.it.shadow_cond(sd[1]): bad = "side condition violated: %r" % (sd[1],); break
+        if bad is None:
+            for v, repl in [(e[0], e[1]) for e in getattr(c2, "extra_defs", []) if len(e) == 2]:
+                if sh[v] != c2.resolve(repl).eval(sh): bad = "contract definition of %s violated" % v; break
+        if bad is None:
+            outs_s = [c2.resolve(x).eval(sh) for x in osym]
+            if outs_s != outs_c: bad = "symbolic outputs %s != concrete-mode outputs %s" % (outs_s[:4], outs_c[:4])
+        res["vectors"].append(dict(vector=tag, variables_checked=len(c2.bounds), side_conditions=len(c2.side), result=bad or "admitted, outputs agree"))
+        if bad: res["ok"] = False; res["why"] = "vector %s: %s" % (tag, bad)
     return res
 
 def _eval_cond_env(c, env):
@@ -251,13 +266,31 @@ def guarded(rep, name, config, fn, thunk):
         rep.add(harness=name, config=config, function=fn, status="inconclusive", why="engine error: %s: %s" % (type(e).__name__, str(e)[:300]), goals=[], wall_s=0,
                 trace=traceback.format_exc()[-1500:])
 
-def run_tasks(tasks, rep=None, jobs=None):
-    """run harness closures concurrently (symbolic execution is cheap; solver calls are sub-processes)"""
-    from concurrent.futures import ThreadPoolExecutor
-    jobs = jobs or int(os.environ.get("VERIF_HARNESS_JOBS", "6"))
-    def one(i_t):
-        i, t = i_t
-        if rep is None: return t()
-        return guarded(rep, "task#%d" % i, "?", "?", t)
-    with ThreadPoolExecutor(max_workers=jobs) as ex:
-        list(ex.map(one, enumerate(tasks)))
+_TASKS = []
+_REP = None
+def _worker(i):
+    rep = _REP
+    n0 = len(rep.items)
+    guarded(rep, "task#%d" % i, "?", "?", _TASKS[i])
+    return rep.items[n0:], dict(smt.STATS)
+
+def run_tasks(tasks, rep, jobs=None):
+    """run harness closures in forked worker processes (symbolic execution and SMT-LIB generation are
+    CPU-bound python; solver calls are sub-processes); results are merged into `rep` in task order"""
+    global _TASKS, _REP
+    import multiprocessing as mp
+    jobs = jobs or int(os.environ.get("VERIF_HARNESS_JOBS", "8"))
+    _TASKS = list(tasks); _REP = rep
+    if jobs <= 1 or len(tasks) <= 1:
+        for i in range(len(tasks)): guarded(rep, "task#%d" % i, "?", "?", tasks[i])
+        return
+    ctx = mp.get_context("fork")
+    with ctx.Pool(min(jobs, len(tasks))) as pool:
+        for items, st in pool.imap(_worker, range(len(tasks))):
+            for it in items:
+                rep.add(**it)
+                if it.get("function"): rep.functions.add(it["function"])
+                if it.get("config"): rep.configs.add(it["config"])
+            smt.STATS["queries"] += st.get("queries", 0); smt.STATS["solver_s"] += st.get("solver_s", 0.0)
+            smt.STATS["closed_without_solver"] += st.get("closed_without_solver", 0)
+            for k, v in st.get("by_verdict", {}).items(): smt.STATS["by_verdict"][k] = smt.STATS["by_verdict"].get(k, 0) + v
